@@ -8,13 +8,25 @@ From C20gen Require Import LockFacts.
 Import ListNotations.
 Local Open Scope string_scope.
 
-(* the translator's structural side conditions: lock operations only as top-level
-   statements, no early return between Lock and a non-deferred Unlock, anchored
-   structs / mutexes / fields exist *)
+(* the translator's structural side conditions: every statement list is balanced (what it locks
+   it unlocks itself, or a top-level defer does), no early return between Lock and a non-deferred
+   Unlock, the anchored structs / mutexes / declared fields exist *)
 Theorem repo_facts_wellformed : unstructured = [] /\ may_leak = [] /\ spec_problems = [].
 Proof. vm_compute. repeat split. Qed.
 
-Theorem repo_well_locked : well_locked guards funcs = true.
+(* every access to a guarded field (declared or inferred guard map) on every call path from an
+   entry point holds the guarding mutex — writes exclusively; every path returns lock-free *)
+Theorem repo_well_locked : well_locked_from guards funcs entries = true.
+Proof. vm_compute. reflexivity. Qed.
+
+(* the declared guard map is re-derived by the inference rule on this tree (a sanity check of the rule) *)
+Theorem repo_declared_guards_inferred :
+  forallb (fun d => existsb (fun f => String.eqb (fst d) (snd f)) inferable) guards_declared = true.
+Proof. vm_compute. reflexivity. Qed.
+
+(* no mutex is acquired (in any mode) on a call path on which it is already held:
+   C20_recursive_rlock_deadlocks *)
+Theorem repo_no_recursive_lock : no_recursive_lock funcs = true.
 Proof. vm_compute. reflexivity. Qed.
 
 Theorem repo_wrappers_registered :
@@ -24,9 +36,10 @@ Proof. vm_compute. reflexivity. Qed.
 Theorem repo_no_escape : no_escape funcs escapes = true.
 Proof. vm_compute. reflexivity. Qed.
 
-(* deadlock freedom as far as it is syntactic: at most one of the translated mutexes is held at
-   a time, and no callback (a channel send in the programs) runs under an inner mutex *)
-Theorem repo_one_lock_at_a_time : one_lock_at_a_time funcs = true.
+(* deadlock freedom as far as it is syntactic: the (held, acquired) pairs over all call paths
+   form an acyclic order, and no callback whose target is unknown runs under a mutex other than
+   the Listener's *)
+Theorem repo_lock_order_acyclic : lock_order_ok funcs = true.
 Proof. vm_compute. reflexivity. Qed.
 
 (* no blocking channel send while holding a mutex that the channel's consumer acquires (nor under a
@@ -47,14 +60,16 @@ Proof. vm_compute. repeat split. Qed.
 (* hence: no interleaving of the translated functions reaches a state with two
    goroutines at conflicting accesses to poolToCounters / activeAds / the Announce fields *)
 Theorem repo_race_free : forall bodies c0 c,
-  inline_all fuel0 funcs = Some bodies -> idle c0 -> steps bodies c0 c -> ~ racy guards c.
-Proof. intros bodies c0 c. apply (lockset_sound guards funcs). exact repo_well_locked. Qed.
+  inline_entries fuel0 funcs entries = Some bodies -> idle c0 -> steps bodies c0 c -> ~ racy guards c.
+Proof. intros bodies c0 c. apply (lockset_sound_from guards funcs entries). exact repo_well_locked. Qed.
 
 Print Assumptions repo_facts_wellformed.
 Print Assumptions repo_well_locked.
 Print Assumptions repo_wrappers_registered.
 Print Assumptions repo_no_escape.
 Print Assumptions repo_race_free.
-Print Assumptions repo_one_lock_at_a_time.
+Print Assumptions repo_lock_order_acyclic.
+Print Assumptions repo_no_recursive_lock.
+Print Assumptions repo_declared_guards_inferred.
 Print Assumptions repo_fetchers_confined.
 Print Assumptions repo_no_blocking_send_under_lock.
